@@ -38,6 +38,7 @@ func main() {
 	commands["c12"] = runC12
 	commands["c08"] = runC08
 	commands["c18"] = runC18
+	commands["c11"] = runC11
 	commands["c17"] = runC17
 	commands["c14hash"] = func(a []string) { initCollisions(); runC14Hash(a) }
 	registerMore()
